@@ -360,20 +360,22 @@ class Complement(Constructor[CombinatorialClassType, CombinatorialObjectType]):
     def get_terms(
         self, parent_terms: Callable[[int], Terms], subterms: SubTerms, n: int
     ) -> Terms:
-        parent_terms_mapped: Terms = Counter()
-        for param, value in subterms[0](n).items():
-            if value:
-                parent_terms_mapped[self._parent_param_map(param)] += value
+        # Subtract the other children in the parent's coordinates first; only what
+        # is left (the terms of the child we are counting) can be mapped to that
+        # child's parameters. Parent parameters that are merged on that child need
+        # not agree on objects of the other children.
+        remaining: Terms = Counter(subterms[0](n))
         children_terms = subterms[1:]
         for child_terms, param_map in zip(children_terms, self._children_param_maps):
             # we subtract from total
             for param, value in child_terms(n).items():
-                mapped_param = self._parent_param_map(param_map(param))
-                parent_terms_mapped[mapped_param] -= value
-                assert parent_terms_mapped[mapped_param] >= 0
-                if parent_terms_mapped[mapped_param] == 0:
-                    parent_terms_mapped.pop(mapped_param)
-
+                mapped_param = param_map(param)
+                remaining[mapped_param] -= value
+                assert remaining[mapped_param] >= 0
+        parent_terms_mapped: Terms = Counter()
+        for param, value in remaining.items():
+            if value:
+                parent_terms_mapped[self._parent_param_map(param)] += value
         return parent_terms_mapped
 
     def get_sub_objects(
